@@ -623,7 +623,9 @@ func (c *Client) readResponse() error {
 		return fmt.Errorf("in %v: %v", token, err)
 	}
 
-	if !c.dec.ExpectCRLF() {
+	// readResponseTagged consumes the CRLF itself, before completing the
+	// command
+	if tag == "" && !c.dec.ExpectCRLF() {
 		return fmt.Errorf("in response: %v", c.dec.Err())
 	}
 
@@ -732,6 +734,12 @@ func (c *Client) readResponseTagged(tag, typ string) (startTLS *startTLSCommand,
 	var text string
 	if hasSP && !c.dec.ExpectText(&text) {
 		return nil, fmt.Errorf("in resp-text: %v", c.dec.Err())
+	}
+
+	// Make sure the whole line has been received before completing the
+	// command: a truncated "tag OK" must not be reported as a success
+	if !c.dec.ExpectCRLF() {
+		return nil, c.dec.Err()
 	}
 
 	var cmdErr error
